@@ -12,7 +12,7 @@ RULE = ('cases: mesh (line, rectilinear, periodic, 3-D box, triangles, mixed, mu
         '(identity, affine, quadratic with analytic Jacobian) x polynomial scalar and vector fields of degree <=3 with dyadic coefficients. oracle (analytic, computed by the harness from the '
         'coefficient arrays): grad(p(x),x)=p\'(x), div, laplace, curl (3-D), symgrad pointwise at Gauss points; on boundaries |n|=1, surfgrad = (I-nn^T)p\'(x), divergence theorem '
         'boundary flux == volume integral of the divergence; opposite(n)==-n on interfaces; integral of f(x)J(x) equals an independent Gauss-Legendre quadrature of f(g(xi))|det Dg(xi)| over '
-        'the unit box and is invariant under refinement/hierarchical refinement of the topology. non-trivial: non-affine geometry or non-structured/refined/hierarchical topology, and field degree >=2; distinct = case hash')
+        'the unit box and is invariant under refinement/hierarchical refinement of the topology. (product) X x T with X (1-2-D) and T in different spaces, each with its own affine/quadratic geometry: grad/div/laplace with respect to x and d/dt with and without explicit spaces=, integral of f J(x) J(t) vs independent quadrature, unit normals and the divergence theorem on boundary(X) x T and X x boundary(T). non-trivial: non-affine geometry or non-structured/refined/hierarchical topology, and field degree >=2; every product case; distinct = case hash')
 ASSUMPTIONS = ['physical coordinates of the sample points are taken from evaluating the geometry (checked separately against the analytic map of local coordinates for structured meshes)', 'all generated meshes cover the unit box',
                'polynomial fields of degree <=3 composed with a geometry of degree <=2: Gauss degree 14 integrates the integrands exactly']
 
@@ -142,7 +142,104 @@ def check(case, rec):
     for a in applied: rec.label('op:' + a[0])
 
 
-SUBS = [Sub('identities', cases, check, {'quick': 150, 'thorough': 3000}, timeout=180)]
+# ---- product topologies: operators per space -----------------------------------------------------------------------------
+
+@st.composite
+def product_cases(draw, tier):
+    dx = draw(st.sampled_from([1, 2, 2]))
+    return dict(dx=dx, nx=[draw(st.integers(1, 2)) for _ in range(dx)], nt=draw(st.integers(1, 3)), simplex=False,
+                ax=[draw(st.sampled_from([-.25, .25, .5, 0., .125])) for _ in range(6)], at=draw(st.sampled_from([0., .5, -.25])),
+                coeffs=[[draw(st.sampled_from(C)) for _ in range(10)] for _ in range(4)], gdeg=draw(st.sampled_from([2, 3])), explicit=draw(st.booleans()), refine=draw(st.integers(0, 3)) == 0)
+
+
+def check_product(case, rec):
+    """f(x, t) on X x T with X and T in different spaces, each with its own (affine / quadratic) geometry: grad/div/laplace with respect to x act on the X
+    space only, d/dt on T only, J(x) J(t) makes the integral that of f over the image, normals of boundary(X) x T and X x boundary(T) are the unit
+    normals of the respective factor, and the divergence theorem holds per factor"""
+    from nutils import function, mesh
+    dx = case['dx']; d = dx + 1
+    with warnings.catch_warnings():
+        warnings.simplefilter('ignore')
+        if case['simplex']:
+            X, xi = mesh.unitsquare(max(case['nx'][0], 1), 'triangle', space='X') if 'space' in mesh.unitsquare.__code__.co_varnames else (None, None)
+            if X is None: raise Discard('unitsquare-without-space-argument')
+        else:
+            X, xi = mesh.rectilinear([numpy.linspace(0, 1, n + 1) for n in case['nx']], space='X')
+        T, ti = mesh.rectilinear([numpy.linspace(0, 1, case['nt'] + 1)], space='T')
+        if case['refine']: X = X.refined
+        a = case['ax']
+        # geometry of X: affine with a small shear (+ quadratic term in 2-D); of T: t = s + at s(1-s)... kept monotone
+        if dx == 1:
+            x = numpy.stack([xi[0] * (1 + a[0]) + a[1] * xi[0] ** 2 * .5])
+            xmap = lambda P: numpy.stack([P[:, 0] * (1 + a[0]) + a[1] * P[:, 0] ** 2 * .5], axis=1)
+            xdet = lambda P: abs(1 + a[0] + a[1] * P[:, 0])
+        else:
+            x = numpy.stack([xi[0] * (1 + a[0]) + a[1] * xi[1] + a[4] * xi[1] ** 2 * .5, a[2] * xi[0] + xi[1] * (1 + a[3])])
+            xmap = lambda P: numpy.stack([P[:, 0] * (1 + a[0]) + a[1] * P[:, 1] + a[4] * P[:, 1] ** 2 * .5, a[2] * P[:, 0] + P[:, 1] * (1 + a[3])], axis=1)
+            xdet = lambda P: abs((1 + a[0]) * (1 + a[3]) - (a[1] + a[4] * P[:, 1]) * a[2])
+        at = case['at']
+        t = ti[0] * (1 + at) + 2.
+        topo = X * T
+        geom = numpy.stack([*x, t])          # coordinates (x, t) of the product
+        p = Poly(d, case['coeffs'][0])
+        v = [Poly(d, case['coeffs'][1 + k]) for k in range(dx)]
+        pf = p.nutils(geom)
+        vf = numpy.stack([vk.nutils(geom) for vk in v])
+        sp = dict(spaces=['X']) if case['explicit'] else {}
+        spt = dict(spaces=['T']) if case['explicit'] else {}
+        what = f'X({"tri" if case["simplex"] else case["nx"]}) x T({case["nt"]}) ax={a} at={at} explicit-spaces={case["explicit"]}'
+        smp = topo.sample('gauss', case['gdeg'])
+        try:
+            Y, gx, gt, dvx, lapx = smp.eval([geom, function.grad(pf, x, **sp), function.grad(pf, t[None], **spt), function.div(vf, x, **sp), function.laplace(pf, x, **sp)])
+        except Exception as e:
+            raise Violation('eval-raised', f'{what}: {type(e).__name__}: {str(e)[:300]}', where='product-eval:' + type(e).__name__)
+        Y = numpy.asarray(Y)
+        scale = 10 * (1 + max(abs(p(Y)).max(), max(abs(vk(Y)).max() for vk in v)))
+        want_gx = numpy.stack([p(Y, (k,)) for k in range(dx)], axis=1)
+        for name, got, want in (('grad-x', gx, want_gx), ('grad-t', gt, p(Y, (dx,))[:, None]), ('div-x', dvx, sum(v[k](Y, (k,)) for k in range(dx))), ('laplace-x', lapx, sum(p(Y, (k, k)) for k in range(dx)))):
+            got = numpy.asarray(got)
+            if got.shape != numpy.shape(want) or abs(got - want).max() > 1e-9 * scale:
+                raise Violation('product-operator', f'{what}: {name} differs from the analytic derivative by {abs(got - want).max() if got.shape == numpy.shape(want) else got.shape}', where='product:' + name)
+        # integral with both jacobians vs independent quadrature over the unit box
+        f = Poly(d, case['coeffs'][3])
+        gl, gw = numpy.polynomial.legendre.leggauss(8)
+        u = (gl + 1) / 2; wu = gw / 2
+        P = numpy.array(list(itertools.product(u, repeat=d))); W = numpy.prod(numpy.array(list(itertools.product(wu, repeat=d))), axis=1)
+        Yq = numpy.concatenate([xmap(P[:, :dx]), (P[:, dx] * (1 + at) + 2.)[:, None]], axis=1)
+        want_int = float((f(Yq) * xdet(P[:, :dx]) * abs(1 + at)) @ W)
+        if not case['simplex'] or True:
+            got_int = float(topo.integrate(f.nutils(geom) * function.J(x, **sp) * function.J(t[None], **spt), degree=12))
+            if abs(got_int - want_int) > 1e-10 * (1 + abs(want_int)):
+                raise Violation('integral', f'{what}: integral of f J(x) J(t) = {got_int!r}, independent quadrature {want_int!r}', where='product:integral')
+        # boundary of X times T: normal of x, divergence theorem in x for every t
+        if dx >= 1:
+            bt = X.boundary * T
+            nx_ = function.normal(x, **sp)
+            N, = bt.sample('gauss', case['gdeg']).eval([nx_])
+            N = numpy.asarray(N)
+            if abs(numpy.linalg.norm(N, axis=1) - 1).max() > 1e-12:
+                raise Violation('normal-not-unit', f'{what}: |n_x| on boundary(X) x T ranges {numpy.linalg.norm(N, axis=1).min()}..{numpy.linalg.norm(N, axis=1).max()}', where='product:normal')
+            Jb = function.J(x, **sp) * function.J(t[None], **spt)
+            flux = float(bt.integrate((vf * nx_).sum(0) * Jb, degree=12))
+            vol = float(topo.integrate(function.div(vf, x, **sp) * function.J(x, **sp) * function.J(t[None], **spt), degree=12))
+            if abs(flux - vol) > 1e-9 * (1 + abs(vol)):
+                raise Violation('divergence-theorem', f'{what}: flux through boundary(X) x T {flux!r} != integral of div_x over X x T {vol!r}', where='product:divergence-x')
+            # X times boundary of T: fundamental theorem in t
+            xb = X * T.boundary
+            nt_ = function.normal(t[None], **spt)
+            Nt = numpy.asarray(xb.sample('gauss', case['gdeg']).eval(nt_))
+            if abs(abs(Nt) - 1).max() > 1e-12:
+                raise Violation('normal-not-unit', f'{what}: n_t on X x boundary(T) = {Nt.ravel().tolist()[:4]}', where='product:normal-t')
+            fl = float(xb.integrate(pf * nt_[0] * function.J(x, **sp) * function.J(t[None], **spt), degree=12))
+            vt = float(topo.integrate(function.grad(pf, t[None], **spt)[0] * function.J(x, **sp) * function.J(t[None], **spt), degree=12))
+            if abs(fl - vt) > 1e-9 * (1 + abs(vt)):
+                raise Violation('divergence-theorem', f'{what}: [p n_t] over X x boundary(T) {fl!r} != integral of dp/dt {vt!r}', where='product:divergence-t')
+    rec.nontrivial = True
+    rec.label('product:dx=%d' % dx, 'product:explicit=%s' % case['explicit'], *(['product:simplex'] if case['simplex'] else []), *(['product:refined'] if case['refine'] else []))
+
+
+SUBS = [Sub('identities', cases, check, {'quick': 150, 'thorough': 3000}, weight=4, timeout=180),
+        Sub('product', product_cases, check_product, {'quick': 100, 'thorough': 2000}, weight=1, timeout=120)]
 
 TRIGGERS = {}
 
